@@ -440,6 +440,7 @@ static void gen_c10(plan_t *p, rng_t *r)
     for (int i = 0; i < nops; i++) {
         int pieces = rng_range(r, 1, 8);
         gvn = 0; gv[0] = 0;
+        if (i && rng_chance(r, 1, 10)) plan_op(p, 0, "builtin", 1, (long)rng_range(r, 1, 6));      /* built-ins are registered between expansions too: the table grows (and moves) after it has been used */
         if (rng_chance(r, 1, 25)) {
             /* a command just as long as its buffer allows: "command >tempfile" of CONFIG_BUFF bytes, give or take a few */
             long td = plan_get(p, "tmpdir", 0), outlen = (td == 2 || td == 3 ? plan_get(p, "tmpdir.len", 240) : 4) + 1 + 17;       /* "<dir>/Eterm-exec-XXXXXX" */
